@@ -544,11 +544,9 @@ func StoreThenWalk(seed uint64) *Case {
 			op := b.storeOp()
 			sz := op.AccessSize()
 			off := r.Intn(64/sz) * sz
-			b.Emit(isa.Inst{Op: isa.LI, Rd: scratchRegs[0], Imm: b.Val()})
-			b.Emit(isa.Inst{Op: op, Rs2: scratchRegs[0], Rs1: isa.Zero, Imm: int32(64*line + off)})
-			if r.Chance(1, 3) {
-				b.Alu()
-			}
+			// the value comes straight from the initial register file: no register
+			// is written before the walk, so no register hazard is involved
+			b.Emit(isa.Inst{Op: op, Rs2: b.Pool[k%len(b.Pool)], Rs1: isa.Zero, Imm: int32(64*line + off)})
 		}
 		stride := []int{64, 128, 128, 192}[r.Intn(4)]
 		iters := r.Range(20, 100)
@@ -561,10 +559,7 @@ func StoreThenWalk(seed uint64) *Case {
 		b.Emit(isa.Inst{Op: isa.LI, Rd: c, Imm: int32(iters)})
 		top := b.NewLabel()
 		b.Place(top)
-		b.Emit(isa.Inst{Op: b.loadOp(), Rd: b.Dst(), Rs1: w, Imm: int32(4 * r.Intn(2))})
-		if r.Bool() {
-			b.Alu()
-		}
+		b.Emit(isa.Inst{Op: b.loadOp(), Rd: scratchRegs[1], Rs1: w, Imm: int32(4 * r.Intn(2))})
 		b.Emit(isa.Inst{Op: isa.ADDI, Rd: w, Rs1: w, Imm: int32(stride)})
 		b.Emit(isa.Inst{Op: isa.ADDI, Rd: c, Rs1: c, Imm: -1})
 		b.Emit(isa.Inst{Op: isa.BNEZ, Rs1: c, Label: top})
